@@ -221,7 +221,7 @@ def main():
     only = sys.argv[1:]  # optional list of map names
     spec = ['// GENERATED by /verif/tools/gen_orderedmap.py from one template; do not edit.',
             '// Oracle for property C19: abstract insertion-ordered map view of the three generated map types.',
-            'package root', 'ghostfield sync.RWMutex.held int']
+            'package root', 'ghostfield sync.RWMutex.held int', 'ghostfield sync.Once.fired bool']
     files = {}
     for inst in INSTANCES:
         if only and inst['M'] not in only:
